@@ -223,9 +223,11 @@ def correspond(mod, ctx, exe, budget):
     srep = iter(replies[len(model_reqs):])
     model_impl, impl_spec = [], []
     distinct = set()
+    seen_nt = 0
+    norm = getattr(mod, "norm_reply", lambda r: r)
     for c in cases:
-        m = next(mrep) if c.model_req is not None else None
-        s = next(srep) if c.spec_req is not None else None
+        m = norm(next(mrep)) if c.model_req is not None else None
+        s = norm(next(srep)) if c.spec_req is not None else None
         stats["kinds"][c.kind] = stats["kinds"].get(c.kind, 0) + 1
         if c.nontrivial:
             distinct.add(json.dumps(c.desc, sort_keys=True, default=str))
@@ -237,8 +239,12 @@ def correspond(mod, ctx, exe, budget):
             model_impl.append(rec)
         if exp is not None and c.in_domain and exp != c.impl_out:
             impl_spec.append(rec)
-        if len(stats["samples"]) < 8 and c.nontrivial and ctx.rng.random() < max(0.002, 8.0 / max(1, len(cases))):
-            stats["samples"].append(rec)
+        if c.nontrivial:
+            seen_nt += 1
+            if len(stats["samples"]) < 8: stats["samples"].append(rec)
+            else:
+                j = ctx.rng.randrange(seen_nt)
+                if j < 8: stats["samples"][j] = rec
     if not stats["samples"] and cases:
         c = cases[0]; stats["samples"].append({"desc": c.desc, "impl": c.impl_out})
     stats["distinct_nontrivial"] = len(distinct)
